@@ -254,9 +254,15 @@ pub fn run_wait_pop<const N: usize>() {
             }
             if s.spins > SPIN_HORIZON {
                 let msg = format!("site {}: helper still waiting after {} spins (policy {:?}, notifications delivered {}, pending {})", site, s.spins, s.policy, s.notified, pending);
-                *ll.borrow_mut() = Some(msg);
+                if ll.borrow().is_none() {
+                    *ll.borrow_mut() = Some(msg);
+                }
                 // Rescue the run so that it terminates.
                 s.serve_all();
+                if s.spins > 4 * SPIN_HORIZON {
+                    // The helper does not even see a request that has been served: end the call.
+                    panic!("LAB-LIVELOCK: add_notify_wait_pop keeps waiting although the device has served the request");
+                }
             }
         })));
     }
